@@ -37,9 +37,9 @@ ASSUMPTIONS = [
   'quirk kept: the same pair connected twice (either orientation) is merged by the adjacency sets and is not a loop (PV.C09.dup_is_no_loop)',
   'multi-defect designs are compared on accepted/rejected only',
 ]
-RULE = ('legal designs (C08 generator); exactly one injected defect out of 28 kinds (two blocks / block vs net / field vs parent / overlapping slices / '
+RULE = ('legal designs (C08 generator); exactly one injected defect out of 36 kinds (two blocks / block vs net / field vs parent / overlapping slices / '
         'slice vs whole / two constants / constant vs block / headless net / self connection / cycle of 3+ / each port rule Type 1-9 and loop-back / '
-        'wrong operator in update and update_ff / <<= on slice or field) at a random hierarchy position, plus the duplicated-connection quirk; 2-3 defects; '
+        'wrong operator (=, @=, <<=, for-loop target) in update and update_ff, also as a second write to an object the same block already wrote legally, in either statement order / <<= on slice or field) at a random hierarchy position, plus the duplicated-connection quirk; 2-3 defects; '
         'exhaustive tables; each under K statement orders with side flips; case = (design, order); non-trivial = design has a defect or at least two '
         'user nets; distinct = canonical JSON')
 
@@ -174,7 +174,7 @@ def run(ck):
       run_design(ck, d, variants_of(d, rng, 2), name)
   ck.extra_cov['exhaustive'] = not quick
   ck.extra_cov['exhaustive_tables'] = ('port directions over nets: 11 host relations x 3 x 3 kinds (+ loop-back at the parent); ports in update blocks: 5 host pairs x 3 kinds x '
-    'read/write; operators: 2 block kinds x 3 operators x whole/slice/field; pairs of written objects of one Bits4 and one PB signal x '
+    'read/write; operators: 2 block kinds x 4 operators (=, @=, <<=, for target) x whole/slice/field, and every pair (first write, second write to the same object) of them; pairs of written objects of one Bits4 and one PB signal x '
     '{two blocks, one block, block and net}' + (' (write pairs sampled: 120)' if quick else ' (all)'))
 
 def replay(ck, data):
